@@ -336,7 +336,7 @@ def field_mutation_sites(F, adt_id, field, bodies=None):
 def deep_names(b, place, at, hops=5):
     """field names and callee names met while following a value back through receiver (arg0) chains"""
     fields, calls = set(), set()
-    work = [(place, at, hops)]
+    work = [(place, at, hops)] if place is not None else []
     seen = set()
     while work:
         pl, at_, h = work.pop()
